@@ -231,6 +231,20 @@ def ArrKind.type : ArrKind → ClsRef
   | .set => setT
   | .frozenset => frozensetT
 
+/-- brackets of the non-empty display: a list display, a tuple display, a set
+display, and a set display handed to the builtin `frozenset` -/
+def ArrKind.opening : ArrKind → Str
+  | .list => cs!"["
+  | .tuple => cs!"("
+  | .set => cs!"{"
+  | .frozenset => cs!"frozenset({"
+
+def ArrKind.closing : ArrKind → Str
+  | .list => cs!"]"
+  | .tuple => cs!")"
+  | .set => cs!"}"
+  | .frozenset => cs!"})"
+
 /-- `str(obj)` of the empty container -/
 def ArrKind.emptyText : ArrKind → Str
   | .list => cs!"[]"
@@ -242,8 +256,8 @@ inductive PyExpr
   /-- a literal token `text` that evaluates to `v`; `ty` is `type(obj)` of the
       object it was produced from -/
   | lit (v : Val) (text : Str) (ty : ClsRef)
-  /-- `repr_array`: `str(obj)` when empty; otherwise `( … )` for a tuple and a
-      **list display** `[ … ]` for everything else (list, set, frozenset) -/
+  /-- `repr_array`: `str(obj)` when empty; otherwise `[ … ]`, `( … )`, `{ … }`
+      or `frozenset({ … })` by the type of the object -/
   | arr (kind : ArrKind) (xs : List PyExpr)
   | dict (kvs : List (PyExpr × PyExpr))
   /-- `float("inf")` -/
@@ -290,14 +304,34 @@ def jsonBody : Str → Str
 
 def jsonDumps (s : Str) : Str := '"' :: jsonBody s ++ ['"']
 
+/-! ### QName text as Python holds it: code points, lone surrogates included
+
+`literal_value` post-processes the `json.dumps` text with
+`.encode("utf-8", "backslashreplace").decode("utf-8")`: a lone surrogate
+(which `json.dumps(ensure_ascii=False)` copies raw and no source file can
+hold) becomes `\udXXX`; everything else is unchanged.  A Lean `Char` is a
+Unicode scalar value, so strings that may contain surrogates are lists of code
+points here. -/
+
+def isSurrogate (v : Nat) : Bool := 0xD800 ≤ v && v ≤ 0xDFFF
+
+/-- what `literal_value` writes for one code point of the text -/
+def escapeCp (n : Nat) : Str :=
+  if isSurrogate n then
+    ['\\', 'u', hexDigit (n / 4096), hexDigit (n / 256 % 16), hexDigit (n / 16 % 16), hexDigit (n % 16)]
+  else jsonEscChar (Char.ofNat n)
+
+/-- between the quotes of `QName("…")`, for a text given by its code points -/
+def qnameLitBody : List Nat → Str
+  | [] => []
+  | n :: r => escapeCp n ++ qnameLitBody r
+
 mutual
 /-- the source text, exactly as the generator functions yield it -/
 def PyExpr.text (level : Nat) : PyExpr → Str
   | .lit _ t _ => t
   | .arr k [] => k.emptyText
-  | .arr k (x :: xs) =>
-    if k = .tuple then cs!"(\n" ++ textItems (level + 1) (x :: xs) ++ spaces level ++ cs!")"
-    else cs!"[\n" ++ textItems (level + 1) (x :: xs) ++ spaces level ++ cs!"]"
+  | .arr k (x :: xs) => k.opening ++ cs!"\n" ++ textItems (level + 1) (x :: xs) ++ spaces level ++ k.closing
   | .dict [] => cs!"{}"
   | .dict (p :: ps) => cs!"{\n" ++ textKV (level + 1) (p :: ps) ++ spaces level ++ cs!"}"
   | .floatCall _ a => Tables.floatLitPre ++ a ++ Tables.floatLitPost
@@ -339,20 +373,18 @@ def typesKw : List (Str × PyExpr) → List ClsRef
   | (_, e) :: r => e.types ++ typesKw r
 end
 
-/-- `set()` / `frozenset()` call the builtin by name -/
-def emptyRefs (k : ArrKind) (empty : Bool) : List (List Str × ClsRef) :=
-  if empty then
-    match k with
-    | .set => [([cs!"set"], setT)]
-    | .frozenset => [([cs!"frozenset"], frozensetT)]
-    | _ => []
-  else []
+/-- `set()`, `frozenset()` and `frozenset({…})` call the builtin by name -/
+def arrRefs (k : ArrKind) (empty : Bool) : List (List Str × ClsRef) :=
+  match k with
+  | .frozenset => [([cs!"frozenset"], frozensetT)]
+  | .set => if empty then [([cs!"set"], setT)] else []
+  | _ => []
 
 mutual
 /-- the class references the source makes: (dotted name as written, class meant) -/
 def PyExpr.refs : PyExpr → List (List Str × ClsRef)
   | .lit _ _ _ => []
-  | .arr k xs => emptyRefs k xs.isEmpty ++ refsL xs
+  | .arr k xs => arrRefs k xs.isEmpty ++ refsL xs
   | .dict kvs => refsKV kvs
   | .floatCall _ _ => [([floatCallee], floatT)]
   | .qnameCall _ => [([qnameCallee], qnameT)]
@@ -504,8 +536,6 @@ def hexVal (c : Char) : Option Nat :=
   else if 65 ≤ n && n ≤ 70 then some (n - 55)
   else Option.none
 
-def isSurrogate (v : Nat) : Bool := 0xD800 ≤ v && v ≤ 0xDFFF
-
 def rawBad (c : Char) : Bool := c = '"' || c = '\n' || c = '\r' || c.toNat = 0
 
 /-- state of the literal scanner: plain text, just after a backslash, or inside
@@ -538,6 +568,29 @@ def decodeDq : DqState → Str → Option Str
         (if isSurrogate v then Option.none else (decodeDq .normal r).map (Char.ofNat v :: ·))
       else decodeDq (.hex (left - 1) v) r
 
+/-- the same scanner returning code points, so that `\udXXX` can denote the
+lone surrogate it denotes in Python -/
+def decodeCp : DqState → Str → Option (List Nat)
+  | .normal, [] => some []
+  | .esc, [] => Option.none
+  | .hex _ _, [] => Option.none
+  | .normal, c :: r =>
+    if c = '\\' then decodeCp .esc r
+    else if rawBad c then Option.none
+    else (decodeCp .normal r).map (c.toNat :: ·)
+  | .esc, c :: r =>
+    if c = 'u' then decodeCp (.hex 4 0) r
+    else if hardEsc c then Option.none
+    else match simpleEsc c with
+      | some d => (decodeCp .normal r).map (d.toNat :: ·)
+      | Option.none => (decodeCp .normal r).map (fun t => '\\'.toNat :: c.toNat :: t)
+  | .hex left acc, c :: r =>
+    match hexVal c with
+    | Option.none => Option.none
+    | some d =>
+      let v := acc * 16 + d
+      if left ≤ 1 then (decodeCp .normal r).map (v :: ·) else decodeCp (.hex (left - 1) v) r
+
 def kwGet (n : Str) : List (Str × Val) → Option Val
   | [] => Option.none
   | (k, v) :: r => if k == n then some v else kwGet n r
@@ -565,25 +618,38 @@ def construct : List FieldSpec → List (Str × Val) → Except Err (List Val)
 def kwNamesOK (fs : List FieldSpec) (kw : List (Str × Val)) : Bool :=
   kw.all fun p => fs.any fun f => f.init && f.name == p.1
 
-/-- `set()` / `frozenset()`: a call of the builtin, if the name still means it -/
-def evalEmptySet (W : World) (env : Env) (frozen : Bool) : Except Err Val :=
-  let n := if frozen then cs!"frozenset" else cs!"set"
-  match resolve W env [n] with
-  | .error e => .error e
-  | .ok r => if r = bref n then .ok (.set frozen []) else .error .unmodelled
-
 mutual
 def eval (W : World) (env : Env) : PyExpr → Except Err Val
   | .lit v _ _ => .ok v
-  | .arr k xs =>
+  | .arr .list xs =>
     match evalL W env xs with
     | .error e => .error e
-    | .ok vs =>
-      match k with
-      | .list => .ok (.list vs)
-      | .tuple => .ok (.tuple vs)
-      | .set => if vs.isEmpty then evalEmptySet W env false else .ok (.list vs)
-      | .frozenset => if vs.isEmpty then evalEmptySet W env true else .ok (.list vs)
+    | .ok vs => .ok (.list vs)
+  | .arr .tuple xs =>
+    match evalL W env xs with
+    | .error e => .error e
+    | .ok vs => .ok (.tuple vs)
+  | .arr .set xs =>
+    if xs.isEmpty then
+      -- `set()`: a call of the builtin, if the name still means it
+      match resolve W env [cs!"set"] with
+      | .error e => .error e
+      | .ok r => if r = setT then .ok (.set false []) else .error .unmodelled
+    else
+      -- a set display: the elements must be hashable
+      match evalL W env xs with
+      | .error e => .error e
+      | .ok vs => if hashableL vs then .ok (.set false vs) else .error .typeError
+  | .arr .frozenset xs =>
+    -- `frozenset()` / `frozenset({…})`: the name is looked up first
+    match resolve W env [cs!"frozenset"] with
+    | .error e => .error e
+    | .ok r =>
+      if r = frozensetT then
+        match evalL W env xs with
+        | .error e => .error e
+        | .ok vs => if hashableL vs then .ok (.set true vs) else .error .typeError
+      else .error .unmodelled
   | .dict kvs =>
     match evalKV W env kvs with
     | .error e => .error e
